@@ -138,8 +138,8 @@ GonLower(c, n, t) ==
      THEN IF fr # 0 THEN [ctx |-> c, at |-> fr]
           ELSE [ctx |-> SetVar(c, t, n, Fresh), at |-> t]
      ELSE LET moved == c[VMax(Vs)].vars[n]               \* the visible one
-              c1 == [k \in 1..Len(c) |->
-                       IF k \in Vs THEN [c[k] EXCEPT !.vars[n] = Absent] ELSE c[k]]
+              c1 == TLCEval([k \in 1..Len(c) |->
+                       IF k \in Vs THEN [c[k] EXCEPT !.vars[n] = Absent] ELSE c[k]])
           IN [ctx |-> SetVar(c1, dest, n, moved), at |-> dest]
 
 \* Volatile: "requires the topmost context to be volatile.  Otherwise, this
@@ -186,7 +186,7 @@ Unset(c, op) ==
   LET A == {k \in Holders(c, op.n) : k >= ScopeIdx(c, op.scope)}
   IN IF \E k \in A : c[k].vars[op.n].ro THEN Out(c, Res("err", Absent, NoOld))
      ELSE IF A = {} THEN Out(c, Ok)
-     ELSE Out([k \in 1..Len(c) |-> IF k \in A THEN [c[k] EXCEPT !.vars[op.n] = Absent] ELSE c[k]],
+     ELSE Out(TLCEval([k \in 1..Len(c) |-> IF k \in A THEN [c[k] EXCEPT !.vars[op.n] = Absent] ELSE c[k]]),
               Res("ok", c[VMax(A)].vars[op.n], NoOld))
 
 \* push_context(Context::Regular{positional_params}) / push_context(Volatile)
@@ -251,17 +251,19 @@ Decode(s) == IF s \in DOMAIN DecodeTable THEN DecodeTable[s]
 \* operation treats both alike (clone-then-modify = modify the clone).
 NameIdx(n) == CHOOSE i \in 1..Len(NameSeq) : NameSeq[i] = n
 Abstract(o) ==
-  [k \in 1..Len(o) |->
+  TLCEval([k \in 1..Len(o) |->
      [kind |-> o[k].k,
       pos  |-> IF o[k].k = "R" THEN o[k].p ELSE <<>>,
-      vars |-> [n \in Names |->
+      vars |-> TLCEval([n \in Names |->
                  LET e == o[k].v[NameIdx(n)]
                      held == IF o[k].k = "R" THEN e[2] # "-"
                              ELSE /\ e[3] # "-"
                                   /\ IF o[k - 1].k = "R" THEN TRUE
                                      ELSE LET b == o[k - 1].v[NameIdx(n)]
                                           IN b[3] = "-" \/ b[1] # e[1]
-                 IN IF held THEN Decode(e[1]) ELSE Absent]]]
+                 IN IF held THEN Decode(e[1]) ELSE Absent])]])
+\* (TLCEval: TLC keeps a function constructor as an unevaluated closure and
+\* would re-evaluate its body at every application)
 
 \* An observation is coherent iff it is the projection of some model state:
 \* get_scoped agrees with get, iter lists exactly the visible variables of the
